@@ -128,6 +128,21 @@ def layer_b(v, exe, rng, tier, dist):
             ops.append("BWD %s 4 %d %s %d %s - -" % (tn, cap, cur(len(c)), amf(len(c)), common.wide(c)))
         cases.append(common.Case("c06-lb%d" % i, ["HOOK trace 1", "HOOK budget 200000", "TBL %s %s" % (tn, common.hexbytes(txt))], ops,
                                  {"tn": tn, "text": txt}))
+    # fixed shapes (witnesses of seeded changes; compared with the stage model like the generated ones): an insertion that
+    # does not move (empty brackets at the head of the test) followed, at later positions, by rules that must still be
+    # applied (C06-H: the guard against applying a rule twice at one position was left on for the rest of the call)
+    base_ = "space \\s 0\n" + "".join("lowercase %s %s\n" % (ch, d) for ch, d in zip("abcdex", "1 12 14 145 15 1346".split()))
+    FIXED = [(base_ + "noback correct []\"b\" \"x\"\nnoback correct \"c\" \"d\"\nnoback pass2 @145 @15\n", ["abcabc", "bcbc", "cbcb", "abc abc"]),
+             (base_ + "noback pass2 []@12 @1346\nnoback pass2 @14 @145\nnoback pass3 @145 @15\n", ["abcabc", "cbc", "bbcc"]),
+             (base_ + "noback correct []\"b\" \"x\"\nnoback correct []\"c\" \"x\"\nnoback correct \"a\" \"e\"\n", ["abcabc", "cab"])]
+    for fi, (txt, words) in enumerate(FIXED):
+        tn = "lbfix%d.ctb" % fi
+        ops = ["DUMP %s" % tn]
+        for wd in words:
+            for cap in (40, len(wd) + 1, len(wd) + 3):
+                ops.append("FWD %s 4 %d 0 %d %s - -" % (tn, cap, 128 | 28, common.wide(wd)))
+        cases.append(common.Case("c06-lbfix%d" % fi, ["HOOK trace 1", "HOOK budget 200000", "TBL %s %s" % (tn, common.hexbytes(txt))], ops,
+                                 {"tn": tn, "text": txt}))
     from .. import gen_features as GF
     extra = []
     # shipped and wide tables: key/chain check of every pass rule, and every recorded stage the model covers (stages whose
